@@ -110,6 +110,7 @@ package csblob
 //@   on call crypto/hmac.Equal(a, b) ret (r): compared = compared + ite(r && sameslice(a, computed) && (sameslice(b, expected) || sameslice(b, dir.CodeHashes[0])), 1, 0)
 //@   loop 0 sig "for i, expected := range dir.CodeHashes" invariant compared == rangeindex + 1 && dir != nil && len(page) >= 0 && pageSize >= 1 && len(page) <= pageSize && cap(page) == pageSize && allocated(page)
 //@   ensures @every_hash_slot_compared_with_the_page_read ret0 == nil && dir.Header.PageSizeLog2 != 0 ==> compared == len(dir.CodeHashes)
+//@   ensures @a_single_page_image_is_hashed_whole_and_compared_with_its_one_slot ret0 == nil && dir.Header.PageSizeLog2 == 0 ==> compared == 1
 //@   modifies sink r
 //@
 //@ func (*SigBlob).Requirements
